@@ -130,6 +130,51 @@ def replay_c12(vsrc, obj_src):
     if a != want or b != want: return True, f'obj={obj_src}: meaning={want} is_valid={a} generated code={b}'
     return False, 'agree'
 
+CONTEXTS = ['Annotated[object, {V}]', 'list[Annotated[object, {V}]]', 'list[Union[Annotated[object, {V}], list[str]]]', 'tuple[Union[Annotated[Any, {V}], list[str]], ...]',
+            'dict[str, Union[list[str], Annotated[object, {V}]]]', 'Union[Annotated[int, {V}], list[Annotated[object, {V}]]]', 'list[Annotated[int, {V}]]', 'tuple[int, Annotated[object, {V}]]']
+CONTEXT_VALIDATORS = ['ISEQ(5)', 'IS(f1)', 'ISINST(L0)', "ISATTR('x', ISEQ(1))", 'ISEQ(5), IS(gt3)', 'AND(ISEQ(5), IS(f1))', 'NOT(AND(ISEQ(5), IS(f1)))', "ISATTR('x', ISEQ(1)), ISEQ(5)"]
+def _ctx_worker(task):
+    hint_src, = task
+    try:
+        from pyvc import shapes, gencheck
+        NS = shapes.NS
+        if 'f1' not in NS:
+            def f1(o): return bool(o)
+            def f2(o): return isinstance(o, int)
+            NS['f1'] = f1; NS['f2'] = f2
+        from pyvc.spec import VDESC
+        return gencheck.shape_obligations(hint_src, 'BeartypeConf()', want=('C01', 'C02'))
+    except Exception:
+        return dict(shape=hint_src, error='crash: ' + traceback.format_exc()[-1200:], obligations=[])
+
+def contexts(rep, tier):
+    """the code string of a validator is EMBEDDED by the generator with whatever expression denotes the object at that position (a name at the
+    root, an assignment expression under containers / unions).  For a palette of validators x embedding positions: the captured checker accepts
+    exactly what the meaning of `Annotated[T, V...]` prescribes (conforms => accepted, must-reject => rejected) - the validator's verdict does
+    not depend on where its code is spliced."""
+    T = [(c.format(V=v),) for c in (CONTEXTS if tier != 'quick' else CONTEXTS[:6]) for v in CONTEXT_VALIDATORS]
+    from pyvc import shapes
+    T = [t for t in T if shapes.valid(t[0])]
+    with mp.get_context('fork').Pool(int(os.environ.get('VERIF_PROCS', '16')), maxtasksperchild=20) as pool:
+        recs = pool.map(_ctx_worker, T, chunksize=2)
+    n = 0
+    for (hint_src,), rec in zip(T, recs):
+        tag = f'C12.context[{hint_src}]'
+        if rec.get('error') and 'generator raised' in rec['error']:
+            # a checker that cannot even be generated for a supported hint is a violation (the validator's code does not survive the embedding), not a checker error
+            rep.add(f'{tag}.generates', 'refuted', backend='structural', where=rec['error'][:400], bounded=True, replay=dict(kind='C12', reproduced=True, detail=rec['error'][:300]),
+                    replay_script=f"from pyvc import shapes\nfrom props import c12\nfrom beartype.door import is_bearable\nshapes.NS.setdefault('f1', bool); shapes.NS.setdefault('f2', bool)\ntry: is_bearable(None, shapes.ev({hint_src!r})); sys.exit(0)\nexcept Exception as e: print('REPRODUCED', type(e).__name__, str(e)[:300]); sys.exit(1)\n"); n += 1; continue
+        if rec.get('error'): rep.error(f'{tag}: {rec["error"]}'); continue
+        for o in rec['obligations']:
+            if o.get('kind') == 'vacuity': continue
+            n += 1; rp = o.get('replay'); script = None
+            if rp and rp.get('reproduced') and rp.get('kind'):
+                script = (f'from pyvc import replaylib\nok, detail = replaylib.replay_gen({rp["kind"]!r}, {hint_src!r}, "BeartypeConf()", {rp["obj"]!r}, {rp["r"]!r}, {rp.get("extra")!r})\n'
+                          'print("REPRODUCED" if ok else "not reproduced", detail)\nsys.exit(1 if ok else 0)\n')
+            rep.add(f'{tag}.{o["name"]}', o['status'], time=o.get('time'), backend=o.get('backend'), where=o.get('where'), replay=rp, solver_output=o.get('solver_output'), replay_script=script, bounded=True, reason=o.get('reason'))
+    if not n: rep.error('C12 contexts: no obligation')
+    rep.bounded.append(dict(kind='validators embedded at several positions of a hint (root, container item, member of a nested union, mapping value): captured checker vs meaning, each for all objects', hints=len(T)))
+
 def main(tier, seed):
     rep = report.Report('C12', tier, seed, 'proof', f'./check C12 --tier {tier}')
     T = palette(tier, seed)
@@ -148,6 +193,8 @@ def main(tier, seed):
             rep.add(f'{tag}.{o["name"]}', o['status'], time=o.get('time'), backend=o.get('backend'), where=o.get('where'), replay=rp,
                     solver_output=o.get('solver_output'), replay_script=script, bounded=(rec['kind'] != 'node'))
         if len(rep.samples) < 5: rep.samples.append(dict(validator=rec['v'], obligations=[f"{o['name']}:{o['status']}" for o in rec['obligations']]))
+    try: contexts(rep, tier)
+    except Exception: rep.error('C12 contexts: ' + traceback.format_exc()[-1500:])
     files = ['beartype/vale/_core/_valecore.py', 'beartype/vale/_core/_valecorebinary.py', 'beartype/vale/_core/_valecoreunary.py', 'beartype/vale/_is/_valeis.py',
              'beartype/vale/_is/_valeisobj.py', 'beartype/vale/_is/_valeisoper.py', 'beartype/vale/_is/_valeistype.py', 'beartype/vale/_util/_valeutilsnip.py',
              'beartype/_util/cls/utilclstest.py']
